@@ -160,7 +160,9 @@ class Arginfo:
 @dataclass(frozen=True)
 class Signature:
     types: tuple
-    return_type: type
+    # Not part of the identity of a signature: two methods that take the
+    # same parameters cannot be told apart by a call
+    return_type: type = field(compare=False)
     req_pos: int
     max_pos: int
     req_names: frozenset
